@@ -110,6 +110,11 @@ def describe_place(body, pl, depth=30):
                     return Val("agg", rv.get("variant") or rv.get("ak"), [describe(body, o, depth - 1) for o in rv["ops"]])
                 if rv["k"] == "discr":
                     return Val("discr", "", [describe_place(body, rv["place"], depth - 1)])
+    # result half of an overflow-checked arithmetic pair: (_t.0) with _t = AddWithOverflow(a, b)
+    if len(pl["p"]) == 1 and isinstance(pl["p"][0], dict) and pl["p"][0].get("f") == 0 and (pl["l"] > body.arg_count or pl["l"] == 0):
+        sd = body.single_def(pl["l"])
+        if sd is not None and sd[1] != "term" and sd[2]["k"] == "binop" and sd[2]["op"].endswith("WithOverflow"):
+            return Val("binop", sd[2]["op"].replace("WithOverflow", ""), [describe(body, sd[2]["a"], depth - 1), describe(body, sd[2]["b"], depth - 1)])
     # field of a freshly built tuple / struct aggregate: look through to the operand
     if len(pl["p"]) == 1 and isinstance(pl["p"][0], dict) and "f" in pl["p"][0] and (pl["l"] > body.arg_count or pl["l"] == 0):
         sd = body.single_def(pl["l"])
